@@ -25,9 +25,11 @@ from harness import core
 
 CTORS = ["if_", "loop", "scan", "sequence_map"]
 NODE_CLASSES = {"_If": "if_", "_Loop": "loop", "_Scan": "scan", "_SequenceMap": "sequence_map"}
-STEPS_FULL = ["build", "infer", "build", "valueProp", "to_onnx", "inspect", "build"]
+STEPS_FULL = ["build", "infer", "build", "valueProp", "to_onnx", "inspect", "copy", "pickle", "graphMethod",
+              "varMethod", "inline", "build"]
 MODEL_STEP = {"build": "build", "to_onnx": "build", "infer": "infer", "valueProp": "valueProp",
-              "inspect": "inspect"}
+              "inspect": "inspect", "copy": "copy", "pickle": "copy", "graphMethod": "graphMethod",
+              "varMethod": "varMethod", "inline": "inline"}
 
 
 class _Boom(Exception):
@@ -396,6 +398,38 @@ def run_real(env: Env, case, steps=()):
                             repr(sub)
                             list(sub.requested_arguments or ())
                             dict(sub.requested_results)
+                            sub == sub, hash(sub)
+                        repr(node), hash(node)
+                    elif st in ("copy", "pickle") and node is not None:
+                        import copy
+                        import pickle
+
+                        things = list(outs) + list(node.subgraphs) + [node]
+                        for th in things:
+                            for fn in ([copy.copy, copy.deepcopy] if st == "copy" else [pickle.dumps]):
+                                try:
+                                    fn(th)
+                                except Exception:  # noqa: BLE001 - unsupported copies are fine; re-invoking is not
+                                    pass
+                    elif st == "graphMethod" and node is not None:
+                        for sub in node.subgraphs:
+                            g2 = sub.with_name("renamed").with_doc("doc").with_opset(("", 17))
+                            if sub.requested_arguments is not None:
+                                g2 = g2.with_arguments(*sub.requested_arguments)
+                            repr(g2)
+                    elif st == "varMethod":
+                        import copy
+
+                        for v in outs:
+                            v.unwrap_type(), repr(v), copy.copy(v), str(v.type)
+                    elif st == "inline" and outd:
+                        try:
+                            mp = env.spox.build(ins, outd)
+                        except ValueError:
+                            mp = None  # unknown shapes at the model border: nothing to inline
+                        if mp is not None:
+                            again = env.spox.inline(mp)(**ins)
+                            env.spox.build(ins, {k: v for k, v in again.items()})
             except Exception as e:  # noqa: BLE001
                 obs["step_errors"].append((st, type(e).__name__))
             obs["steps"].append((st, {r: counters.get(r, 0) - before.get(r, 0) for r in case["cbs"]}))
@@ -1007,6 +1041,20 @@ def run(ck: core.Check):
         problems += [f"generate_opset.py {c}: {p}" for p in spec["problems"]]
     for p in problems:
         ck.broken("translator", "C19 subgraph spec extraction", p)
+    try:
+        from translator import callgraph
+
+        cg = callgraph.generate()
+        ck.cov["call_graph"] = {
+            "functions": cg["n_functions"], "nodes": len(cg["nodes"]), "edges": len(cg["edges"]),
+            "edges_from_reachable": cg["edges_emitted"], "reachable": len(cg["reach"]),
+            "entry_points": {k: len(v) for k, v in cg["entries"].items()},
+            "sinks": cg["sinks_why"], "dynamic_calls": cg["dynamic"],
+        }
+        for sink, path in cg["sink_paths"].items():
+            ck.broken("callgraph", f"stored callback reachable: {sink}", " -> ".join(path))
+    except Exception as e:  # noqa: BLE001
+        ck.broken("translator", "C19 call graph extraction", f"{type(e).__name__}: {e}\n{core.fmt_exc()}")
     ck.cov["generated_specs"] = {f"{m}.{c}": s["subgraphs"] for m, f in info["modules"].items() for c, s in f.items()}
     ck.cov["callback_sites"] = info["sites"]
     ck.lean(["SpoxModel.Props.C19"], audit="SpoxModel.Audit.C19")
